@@ -1,7 +1,7 @@
 ------------------------------- MODULE Bytes -------------------------------
 (* Byte-sequence helpers shared by every muxide specification module.       *)
 (* A byte string is a sequence of integers 0..255.                          *)
-EXTENDS Integers, Sequences, FiniteSets
+EXTENDS Integers, Sequences, FiniteSets, SequencesExt
 
 Byte == 0..255
 
@@ -21,17 +21,24 @@ U16(d, p) == d[p] * 256 + d[p+1]
 U32(d, p) == ((d[p] * 256 + d[p+1]) * 256 + d[p+2]) * 256 + d[p+3]
 FitsU32(d, p) == d[p] < 128
 
-Slice(d, from, to) == IF from > to THEN << >> ELSE SubSeq(d, from, to)
+(* total: positions outside the sequence are cut off (monitors must be able to describe what a  *)
+(* deviating implementation did, e.g. accept a frame whose declared length exceeds the buffer) *)
+Slice(d, from, to) == LET f == IF from < 1 THEN 1 ELSE from
+                          t == IF to > Len(d) THEN Len(d) ELSE to
+                      IN IF f > t THEN << >> ELSE SubSeq(d, f, t)
 
 RECURSIVE Concat(_)
 Concat(ss) == IF ss = << >> THEN << >> ELSE Head(ss) \o Concat(Tail(ss))
 
-RECURSIVE SumSeq(_)
-SumSeq(s) == IF s = << >> THEN 0 ELSE Head(s) + SumSeq(Tail(s))
-
+(* Values read from files are clamped by the reader to BIG = 10^9 (TLC integers are 32-bit); sums and products *)
+(* of such values saturate there, so that the monitors can evaluate whatever an implementation wrote.        *)
+BIG == 1000000000
+Sat(x) == IF x > BIG THEN BIG ELSE IF x < -BIG THEN -BIG ELSE x
+MulSat(x, k) == IF x > BIG \div k THEN BIG ELSE IF x < -(BIG \div k) THEN -BIG ELSE x * k
 (* Sum of f[i] for i in 1..n, iteratively folded (f is a sequence/function) *)
 RECURSIVE SumTo(_, _)
-SumTo(f, n) == IF n = 0 THEN 0 ELSE f[n] + SumTo(f, n - 1)
+SumTo(f, n) == IF n = 0 THEN 0 ELSE Sat(f[n] + SumTo(f, n - 1))
+SumSeq(s) == FoldLeft(LAMBDA acc, x : Sat(acc + x), 0, s)     \* SequencesExt (Java override): linear, no recursion
 
 (* Bits of a byte string, most significant bit first, as a sequence of 0/1. *)
 BitAt(d, i) == LET b == d[((i - 1) \div 8) + 1]
